@@ -38,10 +38,6 @@ def g_no_subdir_file_restore(h):
     return all("/" not in p for s in snaps_of(h) for n in s["nodes"] if n["k"] == "t" for k, p in n["outs"] if k == "file")
 
 
-def g_no_wrong_kind(h):
-    return all(not (o[0] == "P" and o[2][0] == "W") for o in h.ops)
-
-
 def g_cache_never_disabled(h):
     return all(o[1]["cache"] for o in h.ops if o[0] == "B")
 
@@ -276,6 +272,20 @@ def finish(out, pid, batch, rule, extra=None, oracle_evals=0):
                         "non-overlapping outputs; fail-fast builds are compared on exit status only)",
                         "digest function idealised as injective in the model"]
     cleanup(batch)
+
+
+def perturbation_histogram(batch):
+    """how often each prior state was put at an output path (by output kind), over all histories of the run"""
+    hist = {}
+    for name, h, notes, m in batch:
+        kinds = {}
+        for o in h.ops:
+            if o[0] == "S":
+                kinds = {bl.full(n["pkg"], p): k for n in o[1]["nodes"] if n["k"] == "t" for k, p in n["outs"]}
+            elif o[0] == "P":
+                key = "%s:%s" % (kinds.get(o[1], "?"), {"A": "absent", "N": "parent-absent", "W": "wrong-kind", "F": "other-content"}[o[2][0]])
+                hist[key] = hist.get(key, 0) + 1
+    return hist
 
 
 def check_plan_errors(batch):
